@@ -90,7 +90,25 @@ func GenConf(t *rapid.T, p *gen.Prof, formats []string) Conf {
 
 func GenCase(t *rapid.T) *ReportCase {
 	p := GenProfile(t, ProfOpts)
-	return &ReportCase{P: p, C: GenConf(t, p, []string{"top", "text", "tree", "traces", "dot", "topproto", "peek", "callgrind", "webtop"})}
+	c := &ReportCase{P: p, C: GenConf(t, p, []string{"top", "text", "tree", "traces", "dot", "topproto", "peek", "callgrind", "webtop"})}
+	if rapid.IntRange(0, 7).Draw(t, "meancancel") == 0 && len(p.SampleTypes) >= 2 && len(p.Locations) >= 3 {
+		// an entry that is the leaf of one sample and an inner frame of two samples whose selected values
+		// cancel while their counts (the first sample type, the divisor of -mean) do not: raw flat == raw cum,
+		// mean flat != mean cum
+		n := len(p.SampleTypes)
+		mk := func(locs []int, first, rest int64) gen.Sample {
+			v := make([]int64, n)
+			for i := range v {
+				v[i] = rest
+			}
+			v[0] = first
+			return gen.Sample{Locs: locs, Values: v}
+		}
+		p.Samples = append(p.Samples, mk([]int{0}, 3, 3), mk([]int{1, 0}, 1, 2), mk([]int{2, 0}, 1, -2))
+		c.C.Mean = true
+		c.C.SampleIndex = strconv.Itoa(n - 1)
+	}
+	return c
 }
 
 // ResolveIndex implements the documented sample_index selection.
